@@ -1,16 +1,45 @@
 # C18 — Math.min/max/ceil/trunc/round and parseInt against ECMAScript, one call per case.
+#
+# Streams of the generator (see `rule`):
+#   * WHAT number: the classic emphasis set (halves, near-halves, (-0.5, 0.5), eighths, tenths, integers) and the
+#     "rich" set: magnitudes drawn log-uniformly over 1e-9 .. 1e15 with 1..17 significant digits, values within
+#     1e-1 .. 1e-9 (emphasis 1e-7) or one ulp of a rounding boundary (n, n + 0.5) at every magnitude, exact
+#     boundaries at large magnitudes.
+#   * HOW it reaches the helper: directly from Go (int, int64, float64, pugjs.Number, parseFloat of a string), as
+#     page data (the same plus float32, sized ints, uints, numeric strings through parseFloat), or written in the
+#     template's JavaScript -- and then in one of the SPELLINGS an author may use for the same number (plain decimal,
+#     exponent notation with any shift, extra zeros / bare point, hex, legacy octal, a computed expression with
+#     + - * /, parseFloat of a string literal), as call argument or bound by `- var` first.
+# The value a spelled source denotes is computed here (`denote`: the ECMAScript reading of the text, IEEE double
+# arithmetic), never taken from the code under test.
+import math
 import re
+import struct
+from decimal import Decimal
 from fractions import Fraction
 from common import *
 
 FN = {"min": b"FMin", "max": b"FMax", "ceil": b"FCeil", "trunc": b"FTrunc",
       "round": b"FRound", "parseInt": b"FParseInt"}
 VIA = {"direct": b"Direct", "literal": b"TplLiteral", "var": b"TplVar", "data": b"TplData"}
-KIND = {"int": b"KInt", "int64": b"KInt64", "float64": b"KFloat64", "number": b"KFloat64"}
+SINT_KINDS = ("int8", "int16", "int32")
+UINT_KINDS = ("uint", "uint8", "uint16", "uint32")
+INT_KINDS = ("int", "int64") + SINT_KINDS + UINT_KINDS
+INT_RANGE = {"int8": (-2 ** 7, 2 ** 7 - 1), "int16": (-2 ** 15, 2 ** 15 - 1), "int32": (-2 ** 31, 2 ** 31 - 1),
+             "uint8": (0, 2 ** 8 - 1), "uint16": (0, 2 ** 16 - 1), "uint32": (0, 2 ** 32 - 1),
+             "uint": (0, 2 ** 63), "int": (-2 ** 63, 2 ** 63 - 1), "int64": (-2 ** 63, 2 ** 63 - 1)}
+# reflect.Kind the helper sees.  Page data is converted by the engine (pugjs.Convert) before a template runs:
+# every int, uint and float kind arrives as pugjs.Number, i.e. Kind Float64 -- the sized kinds below are only
+# generated for the data path.
+KIND = {"int": b"KInt", "int64": b"KInt64", "float64": b"KFloat64", "number": b"KFloat64", "float32": b"KFloat64"}
+for _k in SINT_KINDS + UINT_KINDS:
+    KIND[_k] = b"KFloat64"
 NUM_KINDS = ("int", "int64", "float64", "number")
 STR_KINDS = ("string", "pugstring")
 NUM_RE = re.compile(r"-?\d+(\.\d+)?([eE][-+]?\d+)?\Z")
+EXACT_RE = re.compile(r"r(-?\d+)_(\d+)\Z|i(-?\d+)\Z")
 PRINT_LIMIT = 2 ** 31          # Number prints with 10 significant digits: exact below this
+TWO52 = 2 ** 52
 
 UNIT = ["-0.5", "-0.4999", "-0.499", "-0.375", "-0.25", "-0.125", "-0.1", "-0.0", "0", "0.0",
         "0.1", "0.125", "0.25", "0.375", "0.499", "0.4999", "0.5", "-0.5001", "0.5001", "-0.75", "0.75",
@@ -22,18 +51,110 @@ GARBAGE = ["", "+", "-", "12abc", "abc", " 12", "12 ", "1_000", "0x10", "1e3", "
 
 
 def is_int_text(t):
-    return "." not in t
+    return re.match(r"-?\d+\Z", t) is not None
+
+
+def f32(x):
+    """x rounded to the nearest float32, as a Python float (exact)."""
+    return struct.unpack("f", struct.pack("f", x))[0]
+
+
+# ---------------------------------------------------------------- what a spelled source denotes (ECMAScript)
+
+TOKEN = re.compile(r"\s*(0[xX][0-9a-fA-F]+|(?:\d+\.?\d*|\.\d+)(?:[eE][-+]?\d+)?|parseFloat\('[^']*'\)|[-+*/()])")
+
+
+def denote_literal(t):
+    if t[:2] in ("0x", "0X"):
+        return float(int(t[2:], 16))
+    if len(t) > 1 and t[0] == "0" and re.match(r"[0-7]+\Z", t):
+        return float(int(t, 8))                       # Annex B legacy octal (template code is sloppy-mode script)
+    return float(t)                                   # DecimalLiteral: the nearest double (round to even)
+
+
+def denote(src):
+    """Value of the restricted JavaScript expression src (numeric literals, unary -, + - * /, parentheses,
+    parseFloat('decimal text')) under ECMAScript semantics: every number a double, IEEE arithmetic."""
+    toks = []
+    pos = 0
+    src = src.strip()
+    while pos < len(src):
+        m = TOKEN.match(src, pos)
+        if not m:
+            raise ValueError("cannot read %r at %d" % (src, pos))
+        toks.append(m.group(1))
+        pos = m.end()
+    i = [0]
+
+    def peek():
+        return toks[i[0]] if i[0] < len(toks) else None
+
+    def take():
+        i[0] += 1
+        return toks[i[0] - 1]
+
+    def atom():
+        t = take()
+        if t == "(":
+            v = expr()
+            if take() != ")":
+                raise ValueError("paren")
+            return v
+        if t == "-":
+            return -atom()
+        if t.startswith("parseFloat("):
+            return float(t[len("parseFloat('"):-2])
+        return denote_literal(t)
+
+    def term():
+        v = atom()
+        while peek() in ("*", "/"):
+            if take() == "*":
+                v = v * atom()
+            else:
+                v = v / atom()
+        return v
+
+    def expr():
+        v = term()
+        while peek() in ("+", "-"):
+            if take() == "+":
+                v = v + term()
+            else:
+                v = v - term()
+        return v
+
+    v = expr()
+    if i[0] != len(toks):
+        raise ValueError("trailing tokens in %r" % src)
+    return v
 
 
 def value_of(a):
-    """Exact rational value of a numeric argument as the Go side will hold it."""
-    if a["k"] in ("int", "int64"):
+    """Exact rational value of a numeric argument as ECMAScript / the Go caller defines it."""
+    if a.get("wrap") == "parseFloat":
+        return Fraction(float(unhx(a["v"]).decode()))
+    if a.get("src"):
+        return Fraction(denote(a["src"]))
+    if a["k"] in INT_KINDS:
         return Fraction(int(a["v"]))
+    if a["k"] == "float32":
+        return Fraction(f32(float(a["v"])))
     return Fraction(float(a["v"]))
+
+
+def is_num(a):
+    return a["k"] in KIND or a.get("wrap") == "parseFloat"
 
 
 def literal_safe(s):
     return all(0x20 <= ord(ch) <= 0x7e and ch not in "'\"\\`{}" for ch in s)
+
+
+def prints_exactly(fr):
+    """Does the engine's 10-significant-digit print of this value read back as the value?"""
+    x = float(fr)
+    return Fraction(x) == fr and float("%.10g" % x) == x
 
 
 # ---------------------------------------------------------------- number texts
@@ -98,25 +219,220 @@ def num_text(rng, neg=None):
     return t_int(rng, sign)
 
 
-def with_kind(rng, text, via):
-    if via in ("literal", "var"):
-        k = "int" if is_int_text(text) else "float64"
-    elif is_int_text(text):
-        k = rng.choice(NUM_KINDS)
+# ---------------------------------------------------------------- rich numbers: the whole quantified range
+
+def plain(d):
+    """Decimal -> plain positional text without exponent."""
+    t = format(d, "f")
+    if "." in t:
+        t = t.rstrip("0").rstrip(".")
+    return t or "0"
+
+
+def t_loguniform(rng, sign):
+    """Magnitude 10^e, e uniform over -9 .. 15, with 1..17 significant digits."""
+    e = rng.randint(-9, 15)
+    nd = rng.choice([1, 2, 3, 5, 7, 8, 10, 12, 13, 15, 16, 17])
+    digits = rng.randint(10 ** (nd - 1), 10 ** nd - 1)
+    d = Decimal(digits).scaleb(e - nd + 1)
+    if abs(d) >= TWO52:
+        d = d / 10
+    return sign + plain(d)
+
+
+def int_magnitude(rng):
+    r = rng.random()
+    if r < 0.25:
+        return rng.randint(0, 9)
+    if r < 0.4:
+        return rng.randint(10, 9999)
+    e = rng.randint(4, 15)               # log-uniform up to 1e15
+    return rng.randint(10 ** e, min(10 ** (e + 1), TWO52 // 2) - 1) if r < 0.9 else 10 ** e
+
+
+def t_near_boundary(rng, sign):
+    """Within delta of an integer n or a half n + 0.5; delta 1e-1 .. 1e-9 (emphasis 1e-7) or one ulp."""
+    n = int_magnitude(rng)
+    b = Decimal(n) + (Decimal("0.5") if rng.random() < 0.6 else 0)
+    r = rng.random()
+    if r < 0.2 and b > 0:
+        y = math.nextafter(float(b), math.inf if rng.random() < 0.5 else -math.inf)
+        d = Decimal(repr(y)) if rng.random() < 0.5 else Decimal(y)   # shortest text, or all its digits
     else:
-        k = rng.choice(("float64", "number"))
-    if k in ("float64", "number") and is_int_text(text) and via in ("direct", "data"):
-        pass                       # strconv.ParseFloat("3") is fine
-    return {"k": k, "v": text}
+        k = 7 if r < 0.6 else rng.randint(1, 9)
+        delta = Decimal(1).scaleb(-k) * rng.choice([1, 1, 1, 2, 4, 5, 9])
+        d = b + delta if rng.random() < 0.5 else b - delta
+        if d <= 0:
+            d = b + delta
+    return sign + plain(d)
+
+
+def t_big_boundary(rng, sign):
+    """Exact halves and integers at magnitudes where a double has few fraction bits left."""
+    e = rng.randint(6, 15)
+    n = rng.randint(10 ** e, min(10 ** (e + 1), TWO52) - 1)
+    if rng.random() < 0.3:
+        n = rng.choice([2 ** 31, 2 ** 32, 2 ** 51, 2 ** 52 - 1, 2 ** 50, 10 ** 15, 999999999999999]) - rng.choice([0, 0, 1])
+    return sign + str(n) + rng.choice([".5", ".5", ".25", ".75", ""])
+
+
+def rich_text(rng, neg=None):
+    if neg is None:
+        neg = rng.random() < 0.5
+    sign = "-" if neg else ""
+    r = rng.random()
+    if r < 0.40:
+        return t_loguniform(rng, sign)
+    if r < 0.85:
+        return t_near_boundary(rng, sign)
+    return t_big_boundary(rng, sign)
+
+
+RICH_SHARE = 0.5
+
+
+def any_text(rng, neg=None):
+    return rich_text(rng, neg) if rng.random() < RICH_SHARE else num_text(rng, neg)
+
+
+# ---------------------------------------------------------------- spellings of one decimal in JavaScript source
+
+def sp_exp(rng, mag):
+    """d.ddd e X with the point moved anywhere: 1.2345e6, 12345e2, 0.0012345e9, 1E-7, 1e+3."""
+    d = Decimal(mag)
+    sgn, digs, ex = d.as_tuple()
+    body = "".join(map(str, digs)).lstrip("0") or "0"
+    cut = rng.choice([1, 1, 1, len(body), rng.randint(1, len(body)), 0])
+    shift = rng.choice([0, 0, 1, 2, 3]) if cut == 0 else 0
+    if cut == 0:
+        m = "0." + "0" * shift + body
+        e10 = ex + len(body) + shift
+    elif cut >= len(body):
+        m = body
+        e10 = ex
+    else:
+        m = body[:cut] + "." + body[cut:]
+        e10 = ex + len(body) - cut
+    es = ("+" if e10 >= 0 and rng.random() < 0.3 else "") + str(e10)
+    return m + rng.choice(["e", "e", "E"]) + es
+
+
+def sp_zeros(rng, mag):
+    """Same number with redundant zeros or a bare point: 2.50, 2.5000000, .5, 5., 5.0"""
+    if "." in mag:
+        if mag.startswith("0.") and rng.random() < 0.4:
+            return mag[1:]
+        return mag + "0" * rng.choice([1, 2, 6, 9])
+    if mag != "0" or rng.random() < 0.5:
+        return mag + rng.choice([".", ".0", ".000", ".0000000"])
+    return mag + ".0"
+
+
+def sp_radix(rng, mag):
+    n = int(mag)
+    if n > 0 and rng.random() < 0.2:
+        return "0" + oct(n)[2:]                       # legacy octal
+    h = hex(n)[2:]
+    return rng.choice(["0x", "0x", "0X"]) + (h.upper() if rng.random() < 0.4 else h)
+
+
+def sp_computed(rng, mag):
+    """An expression over literals whose ECMAScript value is (close to) the number; what it denotes exactly is
+    recomputed by `denote`."""
+    x = float(mag)
+    fr = Fraction(x)
+    r = rng.random()
+    if r < 0.35:
+        for b in rng.sample([2, 4, 8, 16], 4):        # exact quotient a / b
+            if (fr * b).denominator == 1 and abs(fr * b) < TWO52:
+                return "(%d / %d)" % (int(fr * b), b)
+        return "(%s / 1)" % mag
+    if r < 0.5 and "." in mag:
+        ip, fp = mag.split(".")
+        return "(%s + 0.%s)" % (ip, fp)               # integer part plus fraction (the sum is rounded once more)
+    if r < 0.6:
+        return "(0 - %s)" % ("-" + mag if rng.random() < 0.5 else "(0 - %s)" % mag)
+    if r < 0.7:
+        return "(%s * 1)" % mag if rng.random() < 0.5 else "(2 * %s / 2)" % mag
+    if r < 0.8 and "." in mag and len(mag) < 18:
+        k = len(mag.split(".")[1])
+        return "(%s / %s)" % (mag.replace(".", "").lstrip("0") or "0", "1" + "0" * k)    # 12345 / 100
+    if r < 0.9:
+        return "parseFloat('%s')" % (mag if rng.random() < 0.7 else sp_exp(rng, mag))
+    return "(%s - 0)" % mag
+
+
+SPELLINGS = ("plain", "exp", "zeros", "radix", "computed")
+
+
+def spell(rng, text):
+    """(source, spelling tag) for the decimal text (optional leading -) in JavaScript."""
+    neg = text.startswith("-")
+    mag = text[1:] if neg else text
+    r = rng.random()
+    if r < 0.34:
+        tag, src = "plain", mag
+    elif r < 0.58:
+        tag, src = "exp", sp_exp(rng, mag)
+    elif r < 0.68:
+        tag, src = "zeros", sp_zeros(rng, mag)
+    elif r < 0.80 and is_int_text(mag) and int(mag) < TWO52:
+        tag, src = "radix", sp_radix(rng, mag)
+    elif r < 0.80:
+        tag, src = "plain", mag
+    else:
+        tag, src = "computed", sp_computed(rng, mag)
+    if neg:
+        src = rng.choice(["-", "-", "-", "- ", "0 - "]) + src if tag != "computed" or rng.random() < 0.7 \
+            else "(0 - %s)" % src
+        if src.startswith("0 - "):
+            src = "(" + src + ")"
+    return src, tag
+
+
+def src_kind(src):
+    return "int" if re.match(r"-? ?(\d+|0[xX][0-9a-fA-F]+)\Z", src) else "float64"
+
+
+def show_float(x):
+    """Decimal text Go's strconv.ParseFloat reads back as exactly x."""
+    return repr(float(x)) if x != int(x) or abs(x) >= 1e16 else str(int(x))
+
+
+def with_kind(rng, text, via):
+    """One numeric argument for decimal text `text` on path `via`."""
+    if via in ("literal", "var"):
+        src, tag = spell(rng, text)
+        try:
+            y = denote(src)
+        except (ValueError, ZeroDivisionError, IndexError):
+            src, tag, y = text, "plain", denote(text)
+        return {"k": src_kind(src), "v": show_float(y), "src": src, "sp": tag}
+    ints = is_int_text(text)
+    r = rng.random()
+    if r < 0.08:
+        # a numeric string that the template (or the Go caller) passes through parseFloat first
+        t = text if rng.random() < 0.7 else ("-" if text.startswith("-") else "") + sp_exp(rng, text.lstrip("-"))
+        return {"k": rng.choice(STR_KINDS), "v": hx(t), "wrap": "parseFloat"}
+    if via == "data" and r < 0.40:
+        if ints:
+            n = int(text)
+            ks = [k for k in SINT_KINDS + UINT_KINDS if INT_RANGE[k][0] <= n <= INT_RANGE[k][1]]
+            if ks:
+                return {"k": rng.choice(ks), "v": str(n)}
+        return {"k": "float32", "v": show_float(f32(float(text)))}
+    if ints:
+        return {"k": rng.choice(NUM_KINDS), "v": text}
+    return {"k": rng.choice(("float64", "number")), "v": text}
 
 
 def pick_via(rng):
     r = rng.random()
-    if r < 0.34:
+    if r < 0.22:
         return "direct"
-    if r < 0.56:
+    if r < 0.50:
         return "literal"
-    if r < 0.78:
+    if r < 0.76:
         return "var"
     return "data"
 
@@ -126,26 +442,34 @@ def pick_via(rng):
 def arg_list(rng):
     n = rng.choice([1, 1, 2, 2, 2, 3, 3, 4, 5, 6])
     mode = rng.choice(["allneg", "allneg", "nonpos", "equal", "equal_but_one", "signchange",
-                       "signchange", "sorted", "random", "allpos"])
+                       "signchange", "sorted", "random", "allpos", "close"])
     if mode == "allneg":
-        ts = [num_text(rng, True) for _ in range(n)]
+        ts = [any_text(rng, True) for _ in range(n)]
         ts = [t for t in ts if Fraction(float(t)) < 0] or ["-1"]
     elif mode == "nonpos":
-        ts = [rng.choice([num_text(rng, True), "0", "-0.0", "0.0"]) for _ in range(n)]
+        ts = [rng.choice([any_text(rng, True), "0", "-0.0", "0.0"]) for _ in range(n)]
     elif mode == "equal":
-        ts = [num_text(rng)] * n
+        ts = [any_text(rng)] * n
     elif mode == "equal_but_one":
-        ts = [num_text(rng)] * n
-        ts[rng.randrange(n)] = num_text(rng)
+        ts = [any_text(rng)] * n
+        ts[rng.randrange(n)] = any_text(rng)
+    elif mode == "close":
+        # arguments a few ulps / 1e-7 apart at one magnitude: the order is decided by the last digits
+        base = rich_text(rng)
+        x = float(base)
+        ts = [base] + [show_float(x + rng.choice([-1, 1]) * rng.choice([1e-7, 1e-9, abs(x) * 2 ** -52, abs(x) * 2 ** -50]))
+                       for _ in range(n - 1)]
+        ts = [t if "e" not in t else plain(Decimal(t)) for t in ts]
+        rng.shuffle(ts)
     elif mode == "signchange":
-        ts = [num_text(rng, i % 2 == 0) for i in range(n)]
+        ts = [any_text(rng, i % 2 == 0) for i in range(n)]
         rng.shuffle(ts)
     elif mode == "sorted":
-        ts = sorted((num_text(rng) for _ in range(n)), key=lambda t: float(t), reverse=rng.random() < 0.5)
+        ts = sorted((any_text(rng) for _ in range(n)), key=lambda t: float(t), reverse=rng.random() < 0.5)
     elif mode == "allpos":
-        ts = [num_text(rng, False) for _ in range(n)]
+        ts = [any_text(rng, False) for _ in range(n)]
     else:
-        ts = [num_text(rng) for _ in range(n)]
+        ts = [any_text(rng) for _ in range(n)]
     return ts
 
 
@@ -169,31 +493,62 @@ class C18(Prop):
     prop_module = "Props.C18"
     prop_file = "Props/C18.v"
     coq_targets = ["Props/C18.vo", "Run/Judge_C18.vo"]
-    sizes = {"quick": 800, "thorough": 60000}
+    sizes = {"quick": 1600, "thorough": 40000}
     design_ref = "DESIGN.md section 6 C18, section 7 F-C18-a, F-C18-b"
-    rule = ("one call of Math.min/max/ceil/trunc/round or parseInt per case, made directly on the exported Go "
-            "API (int, int64, float64, pugjs.Number, string, pugjs.String) or through Engine.Render "
-            "(argument as JS literal, as `- var`, as data field); arguments: negative and positive halves, "
-            "near-halves, (-0.5, 0.5), eighths, tenths, integers up to 2^31-1, +-0; lists of length 1-6 "
-            "(all negative, non-positive, all equal, equal but one, alternating signs, sorted); digit strings "
-            "with sign and leading zeros; a hostile off-domain stream (garbage strings, range limits of "
-            "strconv.ParseInt, no argument, non-number kinds). non-trivial = a negative or fractional "
-            "argument, a list of two or more, or a string; distinct by SHA-1 of the case")
+    rule = ("one call of Math.min/max/ceil/trunc/round or parseInt per case. WHAT numbers: half of the numeric "
+            "arguments from the emphasis set (negative and positive halves, near-halves, (-0.5, 0.5), eighths, tenths, "
+            "integers up to 2^31-1, +-0), half from the rich set: magnitude log-uniform over 1e-9 .. 1e15 with 1-17 "
+            "significant digits (40 %), within 1e-1 .. 1e-9 (mostly 1e-7) or exactly one ulp of a rounding boundary "
+            "n or n + 0.5 with n log-uniform up to 1e15 (45 %), exact halves / quarters / integers between 1e6 and 2^52 "
+            "(15 %); lists of length 1-6 (all negative, non-positive, all equal, equal but one, alternating signs, "
+            "sorted, a few ulps apart). HOW the number reaches the helper: called from Go on the exported API (22 %: "
+            "int, int64, float64, pugjs.Number, string, pugjs.String, parseFloat of a numeric string), or through "
+            "Engine.Render with the argument written in the template's JavaScript as call argument (28 %) or bound by "
+            "`- var` first (26 %), or as a field of the page data (24 %: also float32, int8/16/32, uint/8/16/32, numeric "
+            "strings passed through parseFloat). A number written in the source takes one of the spellings an author can "
+            "choose for it: plain decimal (34 %), exponent notation with the point moved anywhere, e/E, optional + "
+            "(24 %), redundant zeros / bare point `.5` `5.` `2.50` (10 %), hex or legacy octal for integers (up to 12 %), "
+            "a computed expression (20 %: exact quotient a / 2^k, digits / 10^k, integer part + fraction, 0 - x, "
+            "x * 1, 2 * x / 2, x - 0, parseFloat('text')); negative numbers as unary minus or `0 - x`. The value a "
+            "spelling denotes is computed by the generator's own ECMAScript reader (`denote`: nearest double of the "
+            "decimal, IEEE double arithmetic) and recomputed from the source text when a case is judged or replayed. "
+            "Template results are read from the engine's print when 10 significant digits are exact for the result, "
+            "else (and for half of the others) through an observer function registered next to the module's functions "
+            "that writes the value it receives exactly. Digit strings with sign and leading zeros; a hostile "
+            "off-domain stream (garbage strings, range limits of strconv.ParseInt, no argument, non-number kinds). "
+            "non-trivial = a negative or fractional argument, a spelled or wrapped one, a list of two or more, or a "
+            "string; distinct by SHA-1 of the case")
     trusted = [
         "math.Ceil, math.Floor, math.Trunc and the float comparisons <, >, <=, >= are exact on finite doubles "
         "(modelled as the rational functions m_ceilf, m_floor, m_truncf, qlt, qle)",
         "reflect.Kind dispatch, float64(int) for |n| <= 2^53 and int(float64) for integral values inside int64 "
         "(outside: the model declines)",
-        "the harness parses printed template output back to a number with strconv-equivalent Python float(); "
-        "generated magnitudes are below 2^31 with at most 10 significant digits so that Number's %.10g print is exact",
+        "gen/c18.py `denote`: Python float() of a decimal text is the correctly rounded double ECMAScript assigns to "
+        "the numeric literal (and strconv.ParseFloat to the argument of parseFloat), Python float + - * / are the "
+        "IEEE operations ECMAScript prescribes; hex and legacy-octal literals are exact integers. The case handed "
+        "to Coq carries that value as an exact rational. Of this, the reading of every decimal token (literal in the "
+        "source, text given to parseFloat) is re-checked inside Coq by Run.Judge_C18.lit_ok (the claimed value is a "
+        "binary64 number within half an ulp of the decimal; a misread token makes the case a drift), so only the "
+        "composition of computed expressions and the hex / octal reading rest on Python",
+        "results are read either from the printed template output (only when the engine's 10-significant-digit "
+        "number print is exact for the expected magnitude: integers below 2^31, min/max arguments that survive "
+        "%.10g) parsed by Python float(), or from the harness's observer template function c18show, which receives "
+        "the helper's return value from the template executor and writes it as an exact fraction (big.Rat.SetFloat64)",
+        "page data of kind float32 / sized int / uint reaches the helper as pugjs.Number with the same value "
+        "(pugjs.Convert; emitted as KFloat64 with the exact value, checked per case by the correspondence)",
     ]
     assumptions = [
-        "float exactness: for a double n with 0.5 <= |n| < 2^52 the float sums n + 0.5 (and n - 0.5 in the unrepaired "
-        "code) are exact, so Trunc/Floor of the float sum equals Trunc/Floor of the rational sum; below 0.5 the code "
-        "returns 0 without adding (binade argument; not a Coq axiom; a Flocq binary64 lemma would discharge it)",
+        "float exactness: for a double n with 0.5 <= |n| < 2^52 math.Trunc / math.Floor of the float sum n + 0.5 (and "
+        "n - 0.5 in the unrepaired code) equal Trunc / Floor of the rational sum: the sum is exact when it stays in n's "
+        "binade or falls into a lower one, and when it is rounded into the next binade it cannot cross an integer; "
+        "below 0.5 the code returns 0 without adding (binade argument; not a Coq axiom; a Flocq binary64 lemma would "
+        "discharge it; exercised by the one-ulp-from-a-boundary stream)",
         "int is 64 bits (strconv.ParseInt(s, 10, 0) with bitSize 64)",
-        "the JS parser, the emitted template text and the template number parser hand the decimal literal "
-        "to the helper as the nearest double (checked per case by the correspondence, not proved)",
+        "the JS parser, the number text written into the compiled template (fmt %v: shortest round-trip text, with an "
+        "exponent below 1e-4 and from 1e21, and for float64 values from 1e6 that need more than six digits), the template "
+        "lexer / number parser and the runtime operators (__op__sub for unary minus, __op__add/mul/quo/slash) hand "
+        "the value the source denotes to the helper as that double (checked per case by the correspondence over all "
+        "spellings and magnitudes, not proved)",
     ]
     not_yet_proved = []
 
@@ -203,39 +558,54 @@ class C18(Prop):
         while len(cases) < n:
             r = rng.random()
             via = pick_via(rng)
-            if r < 0.30:
+            if r < 0.26:
                 fn = "round"
-                t = num_text(rng, True) if rng.random() < 0.5 else num_text(rng)
+                t = any_text(rng, True) if rng.random() < 0.5 else any_text(rng)
                 c = {"fn": fn, "args": [with_kind(rng, t, via)], "via": via}
-            elif r < 0.50:
+            elif r < 0.44:
                 c = {"fn": "max", "args": [with_kind(rng, t, via) for t in arg_list(rng)], "via": via}
-            elif r < 0.64:
+            elif r < 0.57:
                 c = {"fn": "min", "args": [with_kind(rng, t, via) for t in arg_list(rng)], "via": via}
-            elif r < 0.73:
-                c = {"fn": "ceil", "args": [with_kind(rng, num_text(rng), via)], "via": via}
-            elif r < 0.82:
-                c = {"fn": "trunc", "args": [with_kind(rng, num_text(rng), via)], "via": via}
+            elif r < 0.69:
+                c = {"fn": "ceil", "args": [with_kind(rng, any_text(rng), via)], "via": via}
+            elif r < 0.80:
+                c = {"fn": "trunc", "args": [with_kind(rng, any_text(rng), via)], "via": via}
             elif r < 0.97:
                 c = self.parse_int_case(rng, via)
             else:
                 c = self.hostile_case(rng)
-            cases.append(c)
+            cases.append(self.with_obs(rng, c))
         return cases
+
+    @staticmethod
+    def with_obs(rng, c):
+        """How a template result is read: from the engine's print when that is exact for the result, else (and
+        in half of the other cases too) through the observer function."""
+        if c["via"] == "direct":
+            return c
+        vals = [value_of(a) for a in c["args"] if is_num(a)]
+        for a in c["args"]:
+            if not is_num(a) and a["k"] in STR_KINDS and re.match(rb"[-+]?[0-9]+\Z", unhx(a["v"])):
+                vals.append(Fraction(int(unhx(a["v"]))))
+        if c["fn"] in ("min", "max"):
+            ok = all(prints_exactly(v) for v in vals)
+        else:
+            ok = all(abs(v) < PRINT_LIMIT - 1 for v in vals)
+        if not ok or rng.random() < 0.5:
+            c["obs"] = "exact"
+        return c
 
     def parse_int_case(self, rng, via):
         r = rng.random()
-        if r < 0.45:
-            t = num_text(rng)
+        if r < 0.50:
+            t = any_text(rng)
             if rng.random() < 0.04:
                 t = rng.choice(["0.0000005", "-0.0000005", "0.000001", "0.00000099"])
             return {"fn": "parseInt", "args": [with_kind(rng, t, via)], "via": via}
-        s = digit_string(rng) if r < 0.82 else rng.choice(GARBAGE)
-        # printed results stay exact only below 2^31; non-literal-safe text cannot sit in JS source
-        big = False
+        s = digit_string(rng) if r < 0.84 else rng.choice(GARBAGE)
+        # a template hands every result on as a pugjs.Number (a double): integers from 2^53 cannot be observed there
         m = re.match(r"[-+]?([0-9]+)\Z", s)
-        if m and int(m.group(1)) >= PRINT_LIMIT:
-            big = True
-        if big:
+        if m and int(m.group(1)) >= TWO52:
             via = "direct"
         elif via in ("literal", "var") and not literal_safe(s):
             via = rng.choice(["direct", "data"])
@@ -262,6 +632,8 @@ class C18(Prop):
         return ("(q (%d)%%Z %d%%positive)" % (fr.numerator, fr.denominator)).encode()
 
     def emit_arg(self, a):
+        if a.get("wrap") == "parseFloat":
+            return b"(ANum KFloat64 " + self.cq_Q(value_of(a)) + b")"      # the helper receives parseFloat's float64
         if a["k"] in KIND:
             return b"(ANum " + KIND[a["k"]] + b" " + self.cq_Q(value_of(a)) + b")"
         if a["k"] in STR_KINDS:
@@ -278,17 +650,44 @@ class C18(Prop):
         if obs.get("num"):
             return ("val", Fraction(int(obs["num"]), int(obs["den"])))
         text = unhx(obs.get("text", "")).decode("utf-8", "replace")
+        m = EXACT_RE.match(text)
+        if m:                                           # written by the observer function: exact
+            return ("val", Fraction(int(m.group(1)), int(m.group(2))) if m.group(1) else Fraction(int(m.group(3))))
         if NUM_RE.match(text):
             x = float(text)
             if x == x and x not in (float("inf"), float("-inf")):
                 return ("val", Fraction(x))
         return ("other",)
 
+    @staticmethod
+    def literals(case):
+        """Every decimal literal token the oracle's value rests on, unsigned, with the double it was read as."""
+        out = []
+
+        def dec(t):
+            t = t.strip().lstrip("+-").strip()
+            if re.match(r"(\d+\.?\d*|\.\d+)([eE][-+]?\d+)?\Z", t) and not (len(t) > 1 and t[0] == "0" and t.isdigit()):
+                out.append((t, Fraction(float(t))))
+
+        for a in case["args"]:
+            if a.get("wrap") == "parseFloat":
+                dec(unhx(a["v"]).decode())
+            src = a.get("src") or (a["v"] if case["via"] in ("literal", "var") and a["k"] in KIND else None)
+            if src:
+                for t in TOKEN.findall(src):
+                    if t.startswith("parseFloat('"):
+                        dec(t[len("parseFloat('"):-2])
+                    elif t[:2] not in ("0x", "0X"):
+                        dec(t)
+        return out
+
     def emit(self, case, obs):
         o = self.observed(obs)
         go = (b"(Val " + self.cq_Q(o[1]) + b")") if o[0] == "val" else (b"Panic" if o[0] == "panic" else b"Declined")
         return (b"{| f := " + FN[case["fn"]] + b"; args := " + cq_list([self.emit_arg(a) for a in case["args"]]) +
-                b"; how := " + VIA[case["via"]] + b"; go := " + go + b" |}")
+                b"; how := " + VIA[case["via"]] +
+                b"; lits := " + cq_list([cq_pair(cq_bytes(t.encode()), self.cq_Q(v)) for t, v in self.literals(case)]) +
+                b"; go := " + go + b" |}")
 
     def model_expr(self):
         return "(model c, spec c, in_dom c)"
@@ -298,52 +697,123 @@ class C18(Prop):
         if len(case["args"]) >= 2:
             return True
         for a in case["args"]:
-            if a["k"] in STR_KINDS:
-                return True
-            if a["k"] in KIND and (value_of(a) < 0 or value_of(a).denominator != 1):
+            if is_num(a):
+                if value_of(a) < 0 or value_of(a).denominator != 1 or a.get("src") or a.get("wrap"):
+                    return True
+            elif a["k"] in STR_KINDS:
                 return True
         return False
 
     def sample(self, case, obs):
         def show(a):
-            return "%s:%s" % (a["k"], unhx(a["v"]).decode("utf-8", "replace") if a["k"] in STR_KINDS else a["v"])
+            if a.get("src"):
+                return "js:" + a["src"]
+            t = unhx(a["v"]).decode("utf-8", "replace") if a["k"] in STR_KINDS else a["v"]
+            return "%s:%s" % (a["k"], t) + ("|parseFloat" if a.get("wrap") else "")
         o = self.observed(obs)
         return {"call": "%s(%s)" % (case["fn"], ", ".join(show(a) for a in case["args"])), "via": case["via"],
+                "read": case.get("obs", "print") if case["via"] != "direct" else "return value",
+                "denotes": [str(value_of(a)) for a in case["args"] if is_num(a)],
                 "go": str(o[1]) if o[0] == "val" else o[0]}
+
+    @staticmethod
+    def plain_arg(a):
+        """The same value handed over from Go as float64 / int (no spelling, no wrapper, no sized kind)."""
+        v = value_of(a)
+        if a["k"] in ("int", "int64") and not a.get("src") and not a.get("wrap"):
+            return {"k": a["k"], "v": str(int(v))}
+        return {"k": "float64", "v": show_float(float(v))}
 
     def shrink(self, case):
         args = case["args"]
+
+        def put(i, a, **kw):
+            c = dict(case, args=args[:i] + [a] + args[i + 1:], **kw)
+            if c["via"] == "direct":
+                c.pop("obs", None)
+            elif not prints_exactly(value_of(a)) or abs(value_of(a)) >= PRINT_LIMIT - 1:
+                c["obs"] = "exact"
+            return c
+
         if case["via"] != "direct":
-            yield dict(case, via="direct")
+            c = dict(case, via="direct", args=[self.plain_arg(a) if is_num(a) else a for a in args])
+            c.pop("obs", None)
+            yield c
         if case["fn"] in ("min", "max"):
             for i in range(len(args)):
                 if len(args) > 1:
                     yield dict(case, args=args[:i] + args[i + 1:])
         for i, a in enumerate(args):
-            if a["k"] in KIND:
+            if is_num(a):
+                v = value_of(a)
+                spelled = a.get("src") or a.get("wrap") or a["k"] not in NUM_KINDS
+                if spelled:
+                    # the plain spelling / plain kind of the same value
+                    p = self.plain_arg(a)
+                    if case["via"] in ("literal", "var"):
+                        t = plain(Decimal(p["v"]))
+                        if t != a.get("src"):
+                            yield put(i, {"k": src_kind(t), "v": p["v"], "src": t, "sp": "plain"})
+                    else:
+                        yield put(i, p)
                 # strictly decreasing measure (text length, magnitude): no cycles
-                key = (len(a["v"]), abs(value_of(a)))
+                cur = a.get("src") or plain(Decimal(show_float(float(v))))
+                key = (len(cur), abs(v))
                 simpler = [t for t in ("-1", "-2", "-0.5", "-2.5", "-1.5", "0", "1", "0.5")
                            if (len(t), abs(Fraction(float(t)))) < key]
-                for t in simpler:
-                    k = a["k"] if (is_int_text(t) or a["k"] in ("float64", "number")) else "float64"
-                    yield dict(case, args=args[:i] + [{"k": k, "v": t}] + args[i + 1:])
-                if a["k"] in ("int64", "number"):
-                    yield dict(case, args=args[:i] + [{"k": "int" if a["k"] == "int64" else "float64", "v": a["v"]}] + args[i + 1:])
+                if not spelled or case["via"] in ("literal", "var"):
+                    # one digit less (plain decimal texts only)
+                    if re.match(r"-?\d+(\.\d+)?\Z", cur):
+                        body = cur.lstrip("-")
+                        for j in range(len(body)):
+                            t = body[:j] + body[j + 1:]
+                            if re.match(r"(0|[1-9]\d*)(\.\d+)?\Z", t):
+                                simpler.append(("-" if cur.startswith("-") else "") + t)
+                for t in simpler[:40]:
+                    if case["via"] in ("literal", "var"):
+                        yield put(i, {"k": src_kind(t), "v": show_float(denote(t)), "src": t, "sp": "plain"})
+                    else:
+                        k = a["k"] if a["k"] in NUM_KINDS and (is_int_text(t) or a["k"] in ("float64", "number")) else "float64"
+                        yield put(i, {"k": k, "v": t})
+                if a["k"] in ("int64", "number") and not spelled:
+                    yield put(i, {"k": "int" if a["k"] == "int64" else "float64", "v": a["v"]})
             elif a["k"] in STR_KINDS:
-                s = unhx(a["v"])
-                for j in range(len(s)):
-                    yield dict(case, args=args[:i] + [{"k": a["k"], "v": hx(s[:j] + s[j + 1:])}] + args[i + 1:])
+                sb = unhx(a["v"])
+                for j in range(len(sb)):
+                    yield dict(case, args=args[:i] + [{"k": a["k"], "v": hx(sb[:j] + sb[j + 1:])}] + args[i + 1:])
 
     def distribution(self, cases, obss):
-        d = {"fn": {}, "via": {}, "negative_half_arg": 0, "in_open_unit_half": 0, "all_negative_list": 0,
+        d = {"fn": {}, "via": {}, "read": {}, "spelling": {}, "arg_kind": {}, "log10_magnitude": {},
+             "significant_digits>=11": 0, "within_1e-6_of_integer_or_half": 0, "go_prints_with_exponent": 0,
+             "through_parseFloat": 0,
+             "negative_half_arg": 0, "in_open_unit_half": 0, "all_negative_list": 0,
              "all_equal_list_len>=2": 0, "sign_change_list": 0, "list_len": {}, "digit_string": 0,
              "other_string": 0, "no_argument": 0, "non_number_kind_to_Math": 0, "go_panic": 0,
              "go_unparsed": 0}
+
+        def bump(key, k):
+            d[key][k] = d[key].get(k, 0) + 1
+
         for c, o in zip(cases, obss):
-            d["fn"][c["fn"]] = d["fn"].get(c["fn"], 0) + 1
-            d["via"][c["via"]] = d["via"].get(c["via"], 0) + 1
-            vals = [value_of(a) for a in c["args"] if a["k"] in KIND]
+            bump("fn", c["fn"])
+            bump("via", c["via"])
+            bump("read", "return value" if c["via"] == "direct" else c.get("obs", "print"))
+            vals = [value_of(a) for a in c["args"] if is_num(a)]
+            for a in c["args"]:
+                bump("arg_kind", a["k"] if not a.get("src") else "js source")
+                if a.get("src"):
+                    bump("spelling", a.get("sp", "plain"))
+                d["through_parseFloat"] += a.get("wrap") == "parseFloat" or "parseFloat" in (a.get("src") or "")
+            for v in vals:
+                if v != 0:
+                    bump("log10_magnitude", str(int(math.floor(math.log10(abs(float(v)))))))
+                x = float(v)
+                d["significant_digits>=11"] += float("%.10g" % x) != x
+                t = repr(x)
+                d["go_prints_with_exponent"] += v.denominator != 1 and (abs(x) < 1e-4 or abs(x) >= 1e21 or "e" in t or
+                                                                       (abs(x) >= 1e6 and len(t.replace("-", "").replace(".", "")) > 6))
+                frac2 = (2 * v) - math.floor(2 * v)
+                d["within_1e-6_of_integer_or_half"] += 0 < min(frac2, 1 - frac2) < Fraction(2, 10 ** 6)
             if any(v < 0 and v.denominator == 2 for v in vals):
                 d["negative_half_arg"] += 1
             if any(abs(v) < Fraction(1, 2) for v in vals):
@@ -361,12 +831,12 @@ class C18(Prop):
                     d["non_number_kind_to_Math"] += 1
             elif c["fn"] == "parseInt":
                 for a in c["args"]:
-                    if a["k"] in STR_KINDS:
+                    if a["k"] in STR_KINDS and not a.get("wrap"):
                         if re.match(rb"[-+]?[0-9]+\Z", unhx(a["v"])):
                             d["digit_string"] += 1
                         else:
                             d["other_string"] += 1
-            elif any(a["k"] not in KIND for a in c["args"]):
+            elif any(not is_num(a) for a in c["args"]):
                 d["non_number_kind_to_Math"] += 1
             k = self.observed(o)[0]
             d["go_panic"] += k == "panic"
